@@ -6,9 +6,9 @@ CONSTANTS
   MaxOps = 7
   MaxPuts = 4
   MaxRestarts = 1
-  LoseOpenOnRestart = TRUE
+  LoseOpenOnRestart = FALSE
   UseMemWhenOpen = TRUE
-  NamesFromAll = TRUE
-INVARIANTS NothingMoves
+  NamesFromAll = FALSE
+INVARIANTS AnswerComplete
 VIEW View
 CHECK_DEADLOCK FALSE
